@@ -154,6 +154,13 @@ def summarize(exe, st, f, bb, callee, args, dest_ty):
         if isinstance(v, VAgg) and v.variant == "None":
             return [(st, args[1])]
         return None
+    if re.search(r"Option::<.*>::unwrap_or_else::<.*>$", c):
+        v = args[0]
+        if isinstance(v, VAgg) and v.variant == "Some":
+            return [(st, v.fields[0])]
+        if isinstance(v, VAgg) and v.variant == "None":
+            return exe.call_closure(st, args[1], [])
+        return None
     if re.search(r"Option::<.*>::(is_some|is_none)$", c):
         v = _deref_all(exe, st, args[0])
         if isinstance(v, VAgg):
@@ -170,6 +177,29 @@ def summarize(exe, st, f, bb, callee, args, dest_ty):
         if isinstance(vec, VVec) and isinstance(ref, VRef):
             exe.write_ref(st, ref, [], VVec(list(vec.elems) + [args[1]], vec.ety), f)
             return [(st, VUnit())]
+        return None
+    if re.search(r"Vec::<.*>::pop$", c):
+        ref = args[0]
+        vec = _deref_all(exe, st, ref)
+        if isinstance(vec, VVec) and isinstance(ref, VRef):
+            if not vec.elems:
+                return [(st, VAgg("Option::None", "None", []))]
+            exe.write_ref(st, ref, [], VVec(list(vec.elems)[:-1], vec.ety), f)
+            return [(st, VAgg("Option::Some", "Some", [vec.elems[-1]]))]
+        return None
+    if re.search(r"Vec::<.*>::remove$", c):
+        ref = args[0]
+        vec = _deref_all(exe, st, ref)
+        idx = _int(exe, st, args[1])
+        k = _concrete(idx.e) if idx is not None else None
+        if isinstance(vec, VVec) and isinstance(ref, VRef) and k is not None:
+            if k >= len(vec.elems):
+                exe.oblige(st, z3.BoolVal(False), "panic", f.name, bb, "removal index out of bounds", tag="bounds")
+                return []
+            el = list(vec.elems)
+            out = el.pop(k)
+            exe.write_ref(st, ref, [], VVec(el, vec.ety), f)
+            return [(st, out)]
         return None
     if re.search(r"Vec::<.*>::insert$", c):
         ref = args[0]
@@ -205,6 +235,28 @@ def summarize(exe, st, f, bb, callee, args, dest_ty):
                 return [(st, VAgg("Option::None", "None", []))]
             return [(st, VAgg("Option::Some", "Some", [VRef("elem", ref, _u64(0))]))]
         return None
+    if re.search(r"core::slice::<impl \[.*\]>::get(_mut)?::<usize>$", c):
+        ref = args[0]
+        v = _deref_all(exe, st, ref)
+        if isinstance(v, VSlice) and isinstance(v.vec, VVec) and _concrete(v.start.e) == 0 and _concrete(v.end.e) == len(v.vec.elems):
+            v = v.vec
+        idx = _int(exe, st, args[1])
+        if isinstance(v, VVec) and idx is not None and isinstance(ref, VRef):
+            outs = []
+            n = len(v.elems)
+            for k in range(n):
+                cond = idx.e == z3.BitVecVal(k, 64)
+                if exe.feasible(st, cond):
+                    s2 = st.clone()
+                    s2.pc.append(cond)
+                    outs.append((s2, VAgg("Option::Some", "Some", [VRef("elem", ref, _u64(k))])))
+            cond = z3.UGE(idx.e, z3.BitVecVal(n, 64))
+            if exe.feasible(st, cond):
+                s2 = st.clone()
+                s2.pc.append(cond)
+                outs.append((s2, VAgg("Option::None", "None", [])))
+            return outs
+        return None
     if re.search(r"^<Vec<.*> as DerefMut>::deref_mut$", c):
         return [(st, args[0])]
     if re.search(r"Vec::<.*>::len$", c) or re.search(r"core::slice::<impl \[.*\]>::len$", c):
@@ -234,6 +286,17 @@ def summarize(exe, st, f, bb, callee, args, dest_ty):
             if not exe.feasible(st):
                 return []
             return [(st, VRef("val", VSlice(vec, s_, e_)))]
+        return None
+    if re.search(r"^<Vec<.*> as Index<(?:std::ops::)?RangeTo<usize>>>::index$", c):
+        vec = _deref_all(exe, st, args[0])
+        rng = args[1]
+        if isinstance(vec, VVec) and isinstance(rng, VAgg) and len(rng.fields) == 1:
+            e_ = rng.fields[0]
+            n = z3.BitVecVal(len(vec.elems), 64)
+            exe.oblige(st, z3.ULE(e_.e, n), "panic", f.name, bb, "range end index out of range for slice", tag="bounds")
+            if not exe.feasible(st):
+                return []
+            return [(st, VRef("val", VSlice(vec, _u64(0), e_)))]
         return None
     if re.search(r"core::slice::<impl \[.*\]>::iter$", c) or re.search(r"<&Vec<.*> as IntoIterator>::into_iter$", c) \
             or re.search(r"^<&\[.*\] as IntoIterator>::into_iter$", c):
@@ -359,6 +422,13 @@ def materialize(exe, st, it):
         return [(st, [VRef("val", el) for el in sl.vec.elems[a + it.pos:b]])]
     if it.kind == "vec":
         return [(st, list(it.src.elems[it.pos:]))]
+    if it.kind == "mutslice":
+        vec = _deref_all(exe, st, it.src)
+        if isinstance(vec, VSlice):
+            vec = vec.vec
+        if not isinstance(vec, VVec):
+            raise PathEnd("iter_mut over something that is not a vector")
+        return [(st, [VRef("elem", it.src, _u64(i)) for i in range(it.pos, len(vec.elems))])]
     if it.kind == "cloned":
         outs = []
         for (s2, els) in materialize(exe, st, it.src):
@@ -450,7 +520,7 @@ def iterator_summaries(exe, st, f, bb, c, args, dest_ty):
     # ---- constructors / adaptors ----------------------------------------------------
     if re.search(r"^<std::vec::IntoIter<.*> as IntoIterator>::into_iter$", c):
         return [(st, args[0])]
-    if re.search(r"<std::slice::Iter<'_, .*> as IntoIterator>::into_iter$", c) or re.search(r"<std::iter::\w+<.*> as IntoIterator>::into_iter$", c):
+    if re.search(r"<std::slice::Iter<'_, .*> as IntoIterator>::into_iter$", c) or re.search(r"^<(?:std::iter::)?(?:Enumerate|Map|Filter|Cloned|Copied|Zip|Rev|Chain|Take|Skip)<.*> as IntoIterator>::into_iter$", c):
         return [(st, args[0])]
     m = re.search(r" as Iterator>::(map|filter|enumerate|cloned|copied)(?:::<.*>)?$", c)
     if m and isinstance(args[0], VIter):
@@ -468,7 +538,7 @@ def iterator_summaries(exe, st, f, bb, c, args, dest_ty):
             raise PathEnd("vec![x; n] with symbolic n")
         return [(st, VVec([args[0]] * k))]
     # ---- next on adaptor iterators: materialise once, then step ----------------------------
-    if re.search(r"<std::iter::\w+<.*> as Iterator>::next$", c):
+    if re.search(r"^<(?:std::iter::)?(?:Enumerate|Map|Filter|Cloned|Copied)<.*> as Iterator>::next$", c):
         ref = args[0]
         it = _deref_all(exe, st, ref)
         if isinstance(it, VIter) and isinstance(ref, VRef):
@@ -481,6 +551,23 @@ def iterator_summaries(exe, st, f, bb, c, args, dest_ty):
                     exe.write_ref(s2, ref, [], VIter("vec", VVec([]), 0), f)
                     outs.append((s2, VAgg("Option::None", "None", [])))
             return outs
+        return None
+    # ---- mutable slice iterators: elements are references into the vector ------------------
+    if re.search(r"core::slice::<impl \[.*\]>::iter_mut$", c) or re.search(r"^<&mut Vec<.*> as IntoIterator>::into_iter$", c):
+        if isinstance(args[0], VRef) and isinstance(_deref_all(exe, st, args[0]), (VVec, VSlice)):
+            return [(st, VIter("mutslice", args[0], 0))]
+        return None
+    if re.search(r"^<std::slice::IterMut<'_, .*> as Iterator>::next$", c):
+        ref = args[0]
+        it = _deref_all(exe, st, ref)
+        if isinstance(it, VIter) and it.kind == "mutslice" and isinstance(ref, VRef):
+            vec = _deref_all(exe, st, it.src)
+            if isinstance(vec, VSlice):
+                vec = vec.vec
+            if it.pos < len(vec.elems):
+                exe.write_ref(st, ref, [], VIter("mutslice", it.src, it.pos + 1), f)
+                return [(st, VAgg("Option::Some", "Some", [VRef("elem", it.src, _u64(it.pos))]))]
+            return [(st, VAgg("Option::None", "None", []))]
         return None
     # ---- next on slice iterators ----------------------------------------------------
     if re.search(r"^<std::slice::Iter<'_, .*> as Iterator>::next$", c):
@@ -498,7 +585,7 @@ def iterator_summaries(exe, st, f, bb, c, args, dest_ty):
             return [(st, VAgg("Option::None", "None", []))]
         return None
     # ---- terminal operations ---------------------------------------------------------
-    m = re.search(r" as Iterator>::(sum|collect|count|max_by_key|any|all|fold)(?:::<.*>)?$", c)
+    m = re.search(r" as Iterator>::(sum|collect|count|max_by_key|max|any|all|fold)(?:::<.*>)?$", c)
     if m and isinstance(_deref_all(exe, st, args[0]), VIter):
         op = m.group(1)
         it = _deref_all(exe, st, args[0])
@@ -536,7 +623,18 @@ def iterator_summaries(exe, st, f, bb, c, args, dest_ty):
                     total = VInt(z3.BitVecVal(0, bits), bits, signed)
                 outs.append((s2, total))
             elif op == "collect":
-                outs.append((s2, VVec(els)))
+                if re.search(r"::collect::<std::result::Result<", c):
+                    # collecting Results: the first Err, or Ok of all payloads
+                    shaped = all(isinstance(e, VAgg) and e.variant in ("Ok", "Err") for e in els)
+                    if not shaped:
+                        raise PathEnd("collect into Result over unshaped elements")
+                    err = next((e for e in els if e.variant == "Err"), None)
+                    if err is not None:
+                        outs.append((s2, VAgg("Result::Err", "Err", list(err.fields))))
+                    else:
+                        outs.append((s2, VAgg("Result::Ok", "Ok", [VVec([e.fields[0] for e in els])])))
+                else:
+                    outs.append((s2, VVec(els)))
             elif op == "count":
                 outs.append((s2, _u64(len(els))))
             elif op in ("any", "all"):
@@ -556,6 +654,18 @@ def iterator_summaries(exe, st, f, bb, c, args, dest_ty):
                         nxt.extend(exe.call_closure(s3, args[2], [acc, e]))
                     partial = nxt
                 outs.extend(partial)
+            elif op == "max":
+                if not els:
+                    outs.append((s2, VAgg("Option::None", "None", [])))
+                    continue
+                vals = [_int(exe, s2, e) for e in els]
+                if any(v is None for v in vals):
+                    raise PathEnd("max over non-integers")
+                best = vals[0]
+                for v in vals[1:]:
+                    ge = (v.e >= best.e) if v.signed else z3.UGE(v.e, best.e)
+                    best = VInt(z3.If(ge, v.e, best.e), v.bits, v.signed)
+                outs.append((s2, VAgg("Option::Some", "Some", [best])))
             elif op == "max_by_key":
                 if not els:
                     outs.append((s2, VAgg("Option::None", "None", [])))
